@@ -5,14 +5,22 @@ import (
 	"verif/checks/c02"
 	"verif/checks/c03"
 	"verif/checks/c04"
+	"verif/checks/c05"
+	"verif/checks/c06"
 	"verif/checks/c07"
 	"verif/checks/c08"
 	"verif/checks/c09"
 	"verif/checks/c10"
+	"verif/checks/c12"
+	"verif/checks/c19"
 	"verif/common"
 )
 
 func init() {
+	registry["C06"] = c06.Run
+	registry["C12"] = c12.Run
+	registry["C05"] = c05.Run
+	registry["C19"] = c19.Run
 	registry["C04"] = c04.Run
 	registry["C03"] = c03.Run
 	registry["C02"] = c02.Run
